@@ -158,6 +158,43 @@ def validate(ctx, records, name):
     return {v['tid']: v['violated'] for v in res['exports'].get('VERDICT', [])}
 
 
+def apalache_obligations(ctx):
+    """Unbounded slot loop: Apalache discharges the inductive invariant of spec/apalache/AutoLoopInd.tla (initiation,
+    consecution, IndInv => Safe, monotonicity) and must find the error in a copy of the module with the historic
+    'forgotten offset'.  A tool failure is recorded, not turned into a verdict (the bounded TLC check stands on its own)."""
+    import subprocess, time
+    root = os.path.dirname(os.path.dirname(os.path.dirname(os.path.abspath(__file__))))
+    src = open(os.path.join(root, 'spec', 'apalache', 'AutoLoopInd.tla')).read()
+    d = tempfile.mkdtemp(prefix='pyrates-verif-apa-')
+    res = {}
+    try:
+        open(os.path.join(d, 'AutoLoopInd.tla'), 'w').write(src)
+        broken = src.replace('last\' = (idx - inc) + (inc + D)', "last' = idx").replace('MODULE AutoLoopInd', 'MODULE AutoLoopBroken')
+        open(os.path.join(d, 'AutoLoopBroken.tla'), 'w').write(broken)
+        obligations = [('initiation', 'AutoLoopInd', ['--init=Init', '--inv=IndInv', '--length=0'], 'NoError'),
+                       ('consecution', 'AutoLoopInd', ['--init=IndInit', '--inv=IndInv', '--length=1'], 'NoError'),
+                       ('IndInv=>Safe', 'AutoLoopInd', ['--init=IndInit', '--inv=Safe', '--length=0'], 'NoError'),
+                       ('monotone', 'AutoLoopInd', ['--init=MonoInit', '--inv=MonoInv', '--length=1'], 'NoError'),
+                       ('vacuity:forgotten-offset', 'AutoLoopBroken', ['--init=IndInit', '--inv=IndInv', '--length=1'], 'Error')]
+        for name, mod, args, want in obligations:
+            t0 = time.time()
+            try:
+                p = subprocess.run(['apalache-mc', 'check'] + args + [f'--out-dir={d}/out', mod + '.tla'], cwd=d, text=True,
+                                   stdout=subprocess.PIPE, stderr=subprocess.STDOUT, timeout=600)
+                out = p.stdout
+            except Exception as e:
+                out = f'tool failure: {e!r}'
+            got = 'NoError' if 'The outcome is: NoError' in out else 'Error' if 'The outcome is: Error' in out else 'unknown'
+            res[name] = dict(outcome=got, wall_s=round(time.time() - t0, 1))
+            if got == 'unknown':
+                continue
+            if got != want:
+                ctx.violation(dict(kind='spec', what=f'Apalache obligation {name}: expected {want}, got {got}', output=out[-1500:]))
+    finally:
+        shutil.rmtree(d, ignore_errors=True)
+    ctx.notes['apalache_inductive_invariant'] = res
+
+
 def progs_expr(tier):
     if tier == 'quick':
         return '[nd : {1, 4, 9, 10, 13}, perm : {0, 2}, nodes : {1}, ovr : {FALSE}, scen : {1}] \\cup ' \
@@ -192,6 +229,7 @@ def run(ctx):
         if r['violated'] is None:
             ctx.violation(dict(kind='spec', what=f'wrong slot loop {dev} {b} not detected'))
     ctx.notes['deviations_detected_by'] = vac
+    apalache_obligations(ctx)
     progs = r0['exports'].get('PROG', [])
     results = run_cases(job, [p['prog'] for p in progs], timeout=600)
     records = []
